@@ -223,6 +223,10 @@ type notHandled struct{}
 
 func (ex *Exec) call(fn *ssa.Function, args []Value, nparams int, deferBy *Frame, caller *Frame) (ret Value) {
 	name := fn.String()
+	if st, ok := ex.run.stubs[name]; ok && st != fn {
+		ex.noteAssumption("environment stub: " + name + " is replaced by the harness function " + st.String())
+		return ex.call(st, args, nparams, deferBy, caller)
+	}
 	if in, ok := intrinsics[name]; ok {
 		v := in(ex, args[:nparams], caller)
 		if _, declined := v.(notHandled); !declined {
